@@ -410,7 +410,11 @@ def decide(pid, tier, seed, replay=None):
             path = write_replay(pid, tier, seed, 99, {"kind": "unlisted-known-class", "spec": "",
                                 "explanation": "cases fall in a known-finding class of the model but KNOWN_FINDINGS.txt lists no finding for this property"})
             violations.append(("unlisted-finding", "known-class failures without a KNOWN_FINDINGS.txt entry", path, False))
+    found_path = next((pth for _k, _t, pth, fnd in violations if fnd), None)
     for kind, text, path, found in violations:
+        if not found and found_path is not None:
+            # the break is explained by the concrete failing input reported alongside
+            print("# %s: %s (failing input: %s)" % (kind, text[:3000], found_path)); rc = 1; continue
         if path is None:
             path = write_replay(pid, tier, seed, 50 + k, {"kind": kind, "spec": "", "broken": text})
         k += 1
